@@ -162,10 +162,61 @@ func (sc *c13Scenario) evaluate(sch *crypto.Scheme, pub kyber.Point, engine chai
 		run.Sample(map[string]any{"case_index": sc.p.CaseIndex, "image": evs[len(evs)/2].img.Seq, "label": evs[len(evs)/2].label, "info": evs[len(evs)/2].info})
 	}
 
+	sc.dirEventStates(all)
+
 	// restarts
 	sel := sc.selectRestarts(evs)
 	for _, ev := range sel {
 		sc.restart(ev)
+	}
+}
+
+// dirEventStates replays the directory-entry events of the victim's groups/ folder (inotify, kernel order). Entry
+// creation, unlink and rename are atomic, so after each event the set of existing files is a state a crash could
+// have left — also between two operations that have no hook between them. A state in which exactly one of
+// {group file, share file} exists and which no image already exhibited is reported here.
+func (sc *c13Scenario) dirEventStates(all []*c13Image) {
+	rec, run := sc.rec, sc.run
+	rec.cmu.Lock()
+	evs := append([]c13DirEvent(nil), rec.wevents...)
+	rec.cmu.Unlock()
+	run.Count("dir_entry_events", int64(len(evs)))
+	type pat struct{ g, s bool }
+	seen := map[pat]bool{}
+	for _, img := range all {
+		if img.Hashes == nil {
+			continue
+		}
+		_, g := img.Hashes[c13RelGroup]
+		_, s := img.Hashes[c13RelShare]
+		seen[pat{g, s}] = true
+	}
+	present := map[string]bool{}
+	reported := map[pat]bool{}
+	for i, e := range evs {
+		switch e.Op {
+		case "create", "moved_to":
+			present[e.Name] = true
+		case "delete", "moved_from":
+			present[e.Name] = false
+		}
+		p := pat{present["drand_group.toml"], present["dist_key.private"]}
+		run.Eval(fmt.Sprintf("dir-state/group=%v/share=%v/after-%s-%s", p.g, p.s, e.Op, c13FileKind(e.Name)))
+		if p.g == p.s || seen[p] || reported[p] {
+			continue
+		}
+		reported[p] = true
+		sig, what := "C13/share-without-group/dir-event-order", "the share file existed without a group file"
+		if p.g {
+			sig, what = "C13/group-without-share/dir-event-order", "the group file existed without a share file"
+		}
+		from := i - 3
+		if from < 0 {
+			from = 0
+		}
+		ci := sc.caseInfo(nil, "dir-event-order")
+		ci["events"] = evs[from : i+1]
+		run.Violation(sig, fmt.Sprintf("between two directory operations %s (event %d: %s %s); no hook fires there, the state follows from the kernel's event order", what, i, e.Op, e.Name), ci)
 	}
 }
 
